@@ -244,6 +244,8 @@ def parse_type(t):
     m = RE_DUR.match(s)
     if m:
         return Ty("dur", num=int(m.group(1)), den=int(m.group(2) or 1))
+    if s in ("std::chrono::duration<long>", "duration<long>"):     # the default period: std::ratio<1>, seconds
+        return Ty("dur", num=1, den=1)
     m = RE_TP.match(s)
     if m:
         return Ty("tp", num=int(m.group(1)), den=int(m.group(2) or 1))
@@ -1718,7 +1720,7 @@ Imported by Props/C18Tie.lean only.  In addition to the rules of Generated/Loops
    are read by `W.get_<field>` and assigned by `W.set_<field> v`; `pendingSend = v` is `W.set_pendingSend off len`;
    `if(pendingError)` is `W.pendingErrorSet`; `std::rethrow_exception(std::exchange(pendingError, nullptr))` is
    `W.rethrowPending`;
- * libssl (`SSL_read`, `SSL_write_ex` with its `*written`, `SSL_get_error`, `SSL_is_init_finished`, `SSL_pending`,
+ * libssl (`SSL_read`, `SSL_write_ex` with its `*written`, `SSL_get_error`, `SSL_is_init_finished`, `SSL_pending`, `SSL_shutdown`,
    `SslError`) and the socket layer below (`WaitReadable`, `WaitWritable`, `ReceiveNow`, `Receive`, `SendNow`, `SendAll`,
    `SendTry`, `SendSome` with the caller's deadline object) are world calls `W.ssl*` / `W.sock*`; the `SSL_ERROR_*` and
    poll constants appear with their macro values;
